@@ -74,15 +74,19 @@ def rule_schema(ck):
     zroles = [_accessor_role(ex.expand(a)) for a in zips[0].args]
     probs = []
     for key, val in items.items():
-        idx = sorted({const_value(x.slice) for x in ast.walk(ex.expand(val)) if isinstance(x, ast.Subscript) and u(x.value) in ('row', '__elem__(row_iter)') or
-                      (isinstance(x, ast.Subscript) and '__elem__' in u(x.value) and isinstance(const_value(x.slice), int))})
-        idx = [i for i in idx if isinstance(i, int)]
-        if len(idx) != 1:
-            probs.append('key %r is built from row positions %s' % (key, idx))
+        # the expansion reduces row[k] / an unpacked loop variable to `__elem__(<k-th zipped column>)`
+        cols_used = []
+        for x in ast.walk(ex.expand(val)):
+            if is_marker(x, '__elem__') and not is_marker(x.args[0], '__elem__'):
+                t = u(x.args[0])
+                if t not in [u(c) for c in cols_used]:
+                    cols_used.append(x.args[0])
+        if len(cols_used) != 1 or (isinstance(cols_used[0], ast.Call) and call_name(cols_used[0]) in ('zip', 'builtins.zip')):
+            probs.append('key %r is built from %s' % (key, [u(c)[:40] for c in cols_used] or 'no row column'))
             continue
-        role = zroles[idx[0]] if idx[0] < len(zroles) else None
+        role = _accessor_role(cols_used[0])
         if role != ROLE_OF_KEY[key]:
-            probs.append('key %r takes row[%d], which holds the %s column (expected %s)' % (key, idx[0], role, ROLE_OF_KEY[key]))
+            probs.append('key %r takes the %s column `%s` (expected %s)' % (key, role, u(cols_used[0])[:50], ROLE_OF_KEY[key]))
     (o.fail('; '.join(probs)) if probs else o.ok('row[k] <-> accessor roles %s' % zroles))
     # reader side: column numbers (shared with C19-D2)
     from . import c19
@@ -122,11 +126,14 @@ def rule_time_text(ck):
     v = items.get('time_string')
     o = ck.ob('C14-D2.writer', f, v if v is not None else 'time_string', v if v is not None else f.node)
     txt = u(v) if v is not None else ''
-    good = txt.startswith('str(epoch_time_to_utc_datetime(row[3]).replace(tzinfo=None)).replace(') and txt.endswith("(' ', 'T')")
+    import re as _re
+    good = _re.fullmatch(r"str\(epoch_time_to_utc_datetime\((row\[3\]|\w+)\)\.replace\(tzinfo=None\)\)\.replace\(' ', 'T'\)", txt) is not None
     (o.ok("str(naive utc datetime).replace(' ', 'T')") if good else
      o.fail('the time string is `%s`; the readers expect %%Y-%%m-%%dT%%H:%%M:%%S[.%%f] as produced by str(naive UTC datetime) with " " -> "T"' % txt[:90]))
     g = P.func('csep.utils.readers.csep_ascii.<locals>.parse_datetime')
-    fmts = [const_value(kw(c, 'format', 1)) for c in calls_in(P, g, 'csep.utils.time_utils.strptime_to_utc_epoch')]
+    exg = Expander(P, g)
+    fmts = [const_value(exg.expand(kw(c, 'format', 1))) if kw(c, 'format', 1) is not None else None
+            for c in calls_in(P, g, 'csep.utils.time_utils.strptime_to_utc_epoch')]
     o = ck.ob('C14-D2.reader', g, fmts, g.node)
     (o.ok() if sorted(map(str, fmts)) == ['%Y-%m-%dT%H:%M:%S', '%Y-%m-%dT%H:%M:%S.%f'] else
      o.fail('the reader tries the formats %s; the writer emits %%Y-%%m-%%dT%%H:%%M:%%S with and without .%%f (whole seconds have no fraction)' % fmts))
